@@ -717,7 +717,11 @@ class ApplicationStartJobs(ApplicationJobs):
             self.logger.trace('ApplicationStartJobs.on_command_added: searching a Supvisors instance among'
                               f' {self.identifiers} to start {command.process.namespec} with load={load}'
                               f' / load_request_map={load_request_map}')
-            identifier = get_supvisors_instance(self.supvisors, self.starting_strategy, self.identifiers,
+            # the chosen Supvisors instances do not necessarily all know the program
+            process_identifiers = [identifier for identifier in self.identifiers
+                                   if identifier in command.process.info_map
+                                   and not command.process.disabled_on(identifier)]
+            identifier = get_supvisors_instance(self.supvisors, self.starting_strategy, process_identifiers,
                                                 load, load_request_map)
             if identifier:
                 self.logger.debug(f'ApplicationStartJobs.on_command_added: {command.process.namespec} is planned to'
